@@ -72,6 +72,10 @@ for _tier, _n in (("quick", 300), ("thorough", 6000)):
         ("id_line_leading_blanks", 0.12), ("id_line_leading_tab", 0.03), ("id_line_trailing_blanks", 0.1), ("id_with_inner_blank", 0.06), ("crlf_line_ends", 0.04),
         ("tab_between_numbers", 0.06), ("indented_lines", 0.1), ("trailing_blanks_on_lines", 0.08), ("blank_lines_at_end", 0.06), ("no_final_newline", 0.03))})
 for _tier, _n in (("quick", 40), ("thorough", 800)):
+    FLOORS[_tier].update({"defaults:%s:%s" % (k, d): int(0.4 * _n) for k in ("path", "handle", "stringio", "unseekable_wrapper", "stringio_after_title_line",
+                                                                         "handle_after_title_line", "pipe") for d in ("dtype_omitted", "dtype_given")})
+    FLOORS[_tier]["defaulted_argument:load_surfer.dtype"] = 10 * _n
+for _tier, _n in (("quick", 40), ("thorough", 800)):
     FLOORS[_tier].update({"coords:fragile_end_node": int(0.4 * 7 * _n), "coords:northing_axis_ascending": int(0.8 * _n), "coords:easting_axis_descending": int(0.8 * _n)})
 JOBS = {"quick": 1, "thorough": 8}
 CASE_TIMEOUT_S = 300
@@ -81,8 +85,8 @@ _STATE = {}
 
 def plan(tier):
     if tier == "quick":
-        return collections.OrderedDict(wellformed=300, wrapped=100, header_faults=70, body_faults=80, truncation=40, io_faults=40, histories=100, coords=40)
-    return collections.OrderedDict(wellformed=6000, wrapped=2000, header_faults=1400, body_faults=1600, truncation=800, io_faults=800, histories=2000, coords=800)
+        return collections.OrderedDict(wellformed=300, wrapped=100, header_faults=70, body_faults=80, truncation=40, io_faults=40, histories=100, coords=40, defaults=40)
+    return collections.OrderedDict(wellformed=6000, wrapped=2000, header_faults=1400, body_faults=1600, truncation=800, io_faults=800, histories=2000, coords=800, defaults=800)
 
 
 # ----------------------------------------------------------------------
@@ -143,7 +147,8 @@ class _Monitor:
         fname = ev.args.get("fname")
         self.opened = []
         self.in_call = True
-        return {"text": self.source_text(fname), "fds": self.fds(), "ispath": not hasattr(fname, "readline"),
+        text = self.ctx.get("text")  # given by the workload for sources that cannot be re-read (pipes, handles positioned past a title line)
+        return {"text": text if text is not None else self.source_text(fname), "fds": self.fds(), "ispath": not hasattr(fname, "readline"),
                 "was_closed": bool(getattr(fname, "closed", False))}
 
     def post(self, ev):
@@ -282,7 +287,7 @@ def install(tap, run):
     os.makedirs(mon.workdir, exist_ok=True)
     atexit.register(shutil.rmtree, mon.workdir, True)
     setattr(vio, "open", mon.recording_open)
-    tap.function(vio, "load_surfer", pre=mon.pre, post=mon.post)
+    tap.function(vio, "load_surfer", pre=mon.pre, post=mon.post, documented={"dtype": "float64"})
 
 
 def finish(run, tap, shard):  # noqa: U100
@@ -438,6 +443,59 @@ def run_case(run, tap, stream, index, rng):  # noqa: U100
         spec = sf.random_spec(rng, _effective(dtype), small=True, blanks=bool(index % 2))
         for n, (kind, text) in enumerate(sf.truncations(spec)):
             _routes(run, mon, text, dtype, "truncation:" + kind, "%s-%d" % (tag, n), ("path", "stringio"))
+    elif stream == "defaults":
+        # every kind of source WITHOUT a dtype argument (documented default float64 - the monitor judges the dtype against the documentation)
+        # and with one; sources that cannot seek or tell (a pipe, a wrapper refusing seek), and handles already positioned after a title line
+        spec = sf.random_spec(rng, "float64", small=index % 2 == 0, blanks=bool(index % 3))
+        text = spec.render()
+        path = _write(mon, tag + ".grd", text)
+        titled = _write(mon, tag + "-title.grd", "title line written by another tool\n" + text)
+
+        class NoSeek(io.StringIO):
+            def seek(self, *args):
+                raise io.UnsupportedOperation("seek")
+
+            def tell(self):
+                raise io.UnsupportedOperation("tell")
+
+            def seekable(self):
+                return False
+
+        def source(kind):
+            """(object to pass, cleanup)"""
+            if kind == "path":
+                return path, None
+            if kind == "handle":
+                handle = builtins.open(path, "r")
+                return handle, handle.close
+            if kind == "stringio":
+                return io.StringIO(text), None
+            if kind == "pipe":
+                rfd, wfd = os.pipe()
+                with os.fdopen(wfd, "w") as writer:
+                    writer.write(text[:60000])
+                reader = os.fdopen(rfd, "r")
+                return reader, reader.close
+            if kind == "unseekable_wrapper":
+                return NoSeek(text), None
+            if kind == "stringio_after_title_line":
+                sio = io.StringIO("a title line\n" + text)
+                sio.readline()
+                return sio, None
+            handle = builtins.open(titled, "r")
+            handle.readline()
+            return handle, handle.close
+
+        kinds = ["path", "handle", "stringio", "unseekable_wrapper", "stringio_after_title_line", "handle_after_title_line"] + (["pipe"] if len(text) < 60000 else [])
+        for kind in kinds:
+            for dtype in (None, "float32", "float64") if kind in ("path", "handle") or index % 2 else (None, "float32"):
+                obj, cleanup = source(kind)
+                res, exc = _call(mon, obj, dtype, "defaults:%s" % kind, kind, text=text)
+                run.count("defaults:%s:%s" % (kind, "dtype_omitted" if dtype is None else "dtype_given"))
+                if cleanup:
+                    cleanup()
+        os.remove(path)
+        os.remove(titled)
     elif stream == "coords":
         # many (range, node count) pairs per case, chosen so that start + step*(n-1) does not round back to the stop: the first and last
         # coordinate must still be the header values bit for bit (judged by the monitor on every load), and .sel on the corners must work
